@@ -85,7 +85,7 @@ fn random_run<P: Pad>(seed: u64, run: u64, ops: usize, ns: u32, np: u32, nw: u32
     start_run::<P>(&reset);
     director::set(director::new_random(
         seed.wrapping_mul(0x9E37_79B9).wrapping_add(run),
-        director::RandomCfg { max_objs: maxobjs, fault_p: faultp, max_faults: if faultp > 0.0 { 3 } else { 0 }, cb_act_p: 0.45, weak: cfg!(feature = "weak"), fin_ops: true },
+        director::RandomCfg { max_objs: maxobjs, fault_p: faultp, max_faults: if faultp > 0.0 { 3 } else { 0 }, cb_act_p: 0.45, weak: cfg!(feature = "weak"), fin_ops: true, auto },
     ));
     for _ in 0..ops {
         let op = world::with_world::<P, _>(|w| {
@@ -294,6 +294,7 @@ fn main_replay(args: &[String]) {
             continue;
         }
         // the behaviour's reset event says what build it is meant for; dbg is taken from the build
+        let model_sz = evs[0].get("sz").and_then(|v| v.as_u64()).unwrap_or(144);
         if let Some(m) = evs[0].as_object_mut() {
             m.insert("dbg".into(), json!(cfg!(debug_assertions)));
             m.insert("run".into(), json!(lineno as u64));
@@ -306,7 +307,10 @@ fn main_replay(args: &[String]) {
             skipped += 1;
             continue;
         }
-        let r = on_fresh_thread(move || replay_one::<()>(evs));
+        let r = on_fresh_thread(move || {
+            rec::MODEL_SZ.with(|c| c.set(model_sz));
+            replay_one::<()>(evs)
+        });
         n += 1;
         events += r.lines.len();
         if let Some((pos, what)) = &r.drift {
